@@ -412,7 +412,14 @@ class Runner:
                 off = rng.randint(1, isz - 1)
                 x = (model.items[i0] + model.items[i0 + 1])[off:off + isz]
                 acc.count("membership_probes_across_item_boundary")
-            self.trace.append(["in", x.hex()])
+            kind = rng.random()
+            if kind < 0.12:
+                x = bytearray(x)      # bytes-like probes equal to an item: a list of the items says True
+                acc.count("membership_probes_bytes_like")
+            elif kind < 0.2:
+                x = memoryview(x)
+                acc.count("membership_probes_bytes_like")
+            self.trace.append(["in", bytes(x).hex(), type(x).__name__])
             try:
                 got = x in arr
             except Exception as e:
@@ -666,6 +673,8 @@ def replay(case, acc, ctx):
                     return diverged(step, "iteration differs")
             elif kind == "in":
                 x = bytes.fromhex(op[1])
+                if len(op) > 2 and op[2] in ("bytearray", "memoryview"):
+                    x = {"bytearray": bytearray, "memoryview": memoryview}[op[2]](x)
                 if (x in arr) != (x in model.items):
                     return diverged(step, "membership differs")
             elif kind == "len":
